@@ -37,6 +37,12 @@ func must2(r chain.Result) {
 
 // fundGauge mirrors BuyStorage's gauge creation (payer -> module, NewGauge, module -> gauge account).
 func (w *c03World) fundGauge(payer chain.Account, amount int64, dur time.Duration) {
+	if bal := w.c.App.BankKeeper.GetBalance(w.f.Ctx, payer.Addr, "ujkl").Amount; bal.LT(sdk.NewInt(amount)) {
+		amount = bal.QuoRaw(2).Int64() // the payer cannot afford more
+		if amount <= 0 {
+			return
+		}
+	}
 	coins := sdk.NewCoins(sdk.NewInt64Coin("ujkl", amount))
 	ctx, write := w.f.Ctx.CacheContext()
 	must(w.c.App.BankKeeper.SendCoinsFromAccountToModule(ctx, payer.Addr, storagetypes.ModuleName, coins))
